@@ -895,7 +895,7 @@ namespace plan
         }
     };
 
-    inline std::string tuneParams(vf::Src &s, const ob::PlannerPtr &pl, int per256 = 90)
+    inline std::string tuneParams(vf::Src &s, const ob::PlannerPtr &pl, int per256 = 150)
     {
         std::string log;
         if (!s.chance(per256))
@@ -917,7 +917,7 @@ namespace plan
             const std::string sug = pl->params().getParam(nm)->getRangeSuggestion();
             if (sug.empty())
                 continue;
-            if (!s.chance(80))
+            if (!s.chance(110))
                 continue;
             std::string val;
             if (sug == "0,1")
